@@ -47,7 +47,7 @@ func runC15(run *Run, replay string) {
 	ctx := context.Background()
 	for bi := 0; bi < bases; bi++ {
 		r := rand.New(rand.NewSource(subSeed(run.Res.Seed, bi)))
-		for _, sc := range genScenarios(r, ScenarioOpts{Histories: hist, Inject: bi%2 == 1, Gen: GenOpts{Degenerate: bi%7 == 6}}) {
+		for _, sc := range genScenarios(r, ScenarioOpts{Histories: hist, Inject: bi%2 == 1, Gen: GenOpts{Degenerate: bi%7 == 6, DynFocus: bi%5 == 4}}) {
 			f := sc.Main.Ctx.Files[sc.File]
 			body, ok := f.Body.(*hclsyntax.Body)
 			if !ok {
